@@ -566,6 +566,16 @@ def run_point(doc, log):
         else:
             log.count("probe-skipped-nonfinite")
         sv_new = g[-1]
+        if sv_new is not None and nsv and not model.startswith("JAX:"):
+            # the returned stress is the caller's (the nearly-incompressible formulations add their
+            # pressure term to it in place): changing it leaves the returned new state variables alone
+            raw_ = umat.gradient([None if a is None else np.array(a, copy=True) for a in x])
+            if isinstance(raw_[0], np.ndarray) and raw_[0].flags.writeable and raw_[-1] is not None:
+                dsv_ = adigest(np.asarray(raw_[-1]))
+                raw_[0] += 1.0
+                if adigest(np.asarray(raw_[-1])) != dsv_:
+                    raise Violation(PROP, "inputs-untouched", f"{model}: the new state variables returned by gradient() change when the caller modifies the returned stress in place (they share memory)", site=f"{model}.stress-aliases-state")
+                log.count("returned-stress-modified-by-the-caller")
         # the finite-difference probes called the object with other arrays; a solid body's last call
         # at this state is one with its own buffers
         umat.gradient(x) if k % 2 == 0 else umat.hessian(x)
